@@ -478,3 +478,20 @@ fn replay(_opts: &Opts, d: &Value, acc: &mut Acc) {
         k => acc.inconclusive.push(format!("unknown C01 replay kind {:?}", k)),
     }
 }
+
+/// libFuzzer entry: one generated source with its mutants
+pub fn fuzz_case(genome: &[u8], acc: &mut Acc) -> Vec<Failure> {
+    check_generated(genome, acc)
+}
+
+/// libFuzzer entry: the bytes are the source text
+pub fn fuzz_source(data: &[u8], acc: &mut Acc) -> Vec<Failure> {
+    let src = String::from_utf8_lossy(data).to_string();
+    let binds = vec![
+        ("x".to_string(), V::Int(1)),
+        ("s".to_string(), V::s("str")),
+        ("l".to_string(), V::List(vec![V::Int(1), V::Int(2)])),
+        ("m".to_string(), V::Map([("a".to_string(), V::Int(1))].into_iter().collect())),
+    ];
+    check_total(&src, &binds, "fuzz-source", "fuzz-source", "c01:fuzz-source", true, acc)
+}
